@@ -8,35 +8,13 @@ open Yorkie Yorkie.Crdt
 
 /-! ### decidable executability (for concrete runs) -/
 
-/-- the home container of `c` is a live object -/
-def parentIsLiveObj (H : Home) (d : Doc) (c : Ticket) : Bool :=
-  match H.par c with
-  | some q =>
-    match d q with
-    | some qe => !qe.removed && (match qe.body with | .obj _ _ => true | _ => false)
-    | none => false
-  | none => false
-
 def checkMOp (H : Home) (tw : Ticket → Bool) (d : Doc) (op : UOp) : Bool :=
   match op with
   | .add _ _ _ _ => checkAOp H tw d op
   | .remove _ _ _ => checkAOp H tw d op || checkOp H tw d op
   | .set _ _ _ _ => checkOp H tw d op
-  | .increase c _ _ => checkOp H tw d op && parentIsLiveObj H d c
+  | .increase _ _ _ => checkOp H tw d op
   | _ => false
-
-theorem parentIsLiveObj_spec {H : Home} {d : Doc} {c : Ticket} (h : parentIsLiveObj H d c = true) :
-    ∃ q fq, H.par c = some q ∧ absNode d q = some (.obj fq) := by
-  unfold parentIsLiveObj at h
-  cases hq : H.par c with
-  | none => simp [hq] at h
-  | some q =>
-    cases hd : d q with
-    | none => simp [hq, hd] at h
-    | some qe =>
-      simp only [hq, hd, Bool.and_eq_true, Bool.not_eq_true'] at h
-      cases hb : qe.body <;> simp only [hb, Bool.false_eq_true, and_false] at h
-      exact ⟨q, _, rfl, absNode_of_obj hd h.1 hb⟩
 
 theorem checkMOp_good {H : Home} {tw : Ticket → Bool} {d : Doc} {op : UOp} (h : checkMOp H tw d op = true) :
     GoodOp3 H tw d op := by
@@ -49,10 +27,7 @@ theorem checkMOp_good {H : Home} {tw : Ticket → Bool} {d : Doc} {op : UOp} (h 
     · exact Or.inr (checkOp_good (op := .remove p u ts) h)
   | set p k val ts => exact checkOp_good (op := .set p k val ts) h
   | increase c delta ts =>
-    simp only [checkMOp, Bool.and_eq_true] at h
-    obtain ⟨l, v, h1, h2, h3⟩ := checkOp_good (op := .increase c delta ts) h.1
-    obtain ⟨q, fq, h4, h5⟩ := parentIsLiveObj_spec h.2
-    exact ⟨l, v, q, fq, h1, h2, h3, h4, h5⟩
+    exact checkOp_good (H := H) (tw := tw) (op := .increase c delta ts) h
   | move => simp [checkMOp] at h
   | arraySet => simp [checkMOp] at h
 
@@ -87,14 +62,14 @@ theorem wf_dArr_mix : WF HMix dArr := by
     rcases dArr_cases h with ⟨rfl, rfl⟩ | ⟨rfl, rfl⟩ | ⟨rfl, rfl⟩ | ⟨rfl, rfl⟩ <;>
       simp [eRoot, eArr, eX, eY] at hb
     rw [← hb.1]; simp
-  · intro p pe keys m k mm h hb hm
+  · intro p pe keys m k mm h _ hb hm
     rcases dArr_cases h with ⟨rfl, rfl⟩ | ⟨rfl, rfl⟩ | ⟨rfl, rfl⟩ | ⟨rfl, rfl⟩ <;>
       simp [eRoot, eArr, eX, eY] at hb
     obtain ⟨rfl, rfl⟩ := hb
     by_cases hk : k = "arr"
     · simp [hk] at hm; subst hm; subst hk; decide
     · simp [hk] at hm
-  · intro x xe nodes mv n c h hb hn hc
+  · intro x xe nodes mv n c h _ hb hn hc
     rcases dArr_cases h with ⟨rfl, rfl⟩ | ⟨rfl, rfl⟩ | ⟨rfl, rfl⟩ | ⟨rfl, rfl⟩ <;>
       simp [eRoot, eArr, eX, eY] at hb
     obtain ⟨rfl, rfl⟩ := hb
